@@ -29,6 +29,14 @@ CHECKS = {
    "Real fleet (retry delay and call timeouts on the simulated clock) against scripted nodes that emit per-attempt outcome sequences over {refused, accepted-then-closed (FIN or RST), closed-while-idle, silent-until-timeout, malformed reply, application error, success} of length up to max_attempts+2 for max_attempts 1..3, then turn healthy; both orders of 'reader notices the close' vs 'caller writes' come from the seeded scheduler. Oracle from the node's own log: requests per call <= max_attempts, no retry after a reply, the reply (or an error) is what the call returns, and a healthy-phase call succeeds (not wedged). Broadcasts over tag subsets of up to 4 nodes address exactly the nodes carrying all tags, one result each.",
    "simulated socket semantics (write after local shutdown = BrokenPipe, connect without listener = ConnectionRefused, both validated against Linux); a malformed reply may or may not be retried (the property leaves it open) but must not wedge the node.",
    "deterministic simulation: scripted fault sequences x seeded schedules, node-log oracle, recovery (liveness) check after faults stop"),
+ "C09": ("exploration","3/C09",
+   "Real SVS producers of every kind (value, typed array, complex array, reader, writer; payload lengths on every chunk-boundary residue, chunk sizes 1..1000 bytes, channel depths 0..8, none/zstd) run on the real Server with the producer thread, the bounded channel, the connection thread and the puller all under seeded schedules (plus seeded sleeps inside reader/writer producers). A raw scripted client speaks /_svs/open, next, cancel and checks: concatenated chunks equal the producer's logical bytes (after an independent zstd decode), exactly one final marker on the final chunk, empty payload = one empty final chunk, next past the end / after cancel is an error, a producer failure surfaces as an error and never as an end marker; pull_to_vec, pull_value, pull_typed_slice, pull_complex_slice and pull_consume over the real Client must return exactly the original.",
+   "blocking transport (Server + Client) only in this check family; payloads up to 64 KiB.",
+   "deterministic simulation: seeded producer/consumer schedules, stream-reassembly oracle"),
+ "C10": ("fault_enumeration","3/C10",
+   "pull_to_file, pull_to_beve_file, pull_to_beve_zst_file and pull_to_file_trailer_verified against a real or scripted SVS producer with: producer failure at chunk boundaries +-1 byte, connection cut/reset/error reply/missing final marker after the k-th response, rejecting verifier, trailer longer than the stream, rename failure, and a simulated kill (the puller thread frozen, no destructor runs) at a seeded scheduling point or exactly at each commit-path probe (created, before_sync, synced, before_rename, after_rename); destination absent or pre-existing. Oracle on the real files: Ok => complete content and the temp file's length at rename equals its length at the last sync_all; Err or kill => destination byte-for-byte what it was (or complete iff the rename had been reached), no .svspart left after an in-process failure.",
+   "files are real (tmpfs private directory): torn writes / ENOSPC inside io::copy are not injected; durability is judged by the probe sequence (sync_all before rename with unchanged length), not by a simulated page cache.",
+   "deterministic simulation: crash-point and fault enumeration over the commit path, file-state oracle"),
  "C11": ("exploration","5.3/C11",
    "Seeded histories (systematic-size and long random) on the real TransferControl compared step by step with a credit model, plus the documented producer loop run against concurrent ack/advance/resume/cancel threads under seeded schedules; in-flight bound asserted after every send.",
    "simkernel Mutex/Condvar semantics; producer-side offsets < 2^56 and chunk lengths <= 2^48 (the property's bound); model written without repository code.",
@@ -59,8 +67,8 @@ NOT_APPLICABLE = [
 PENDING = {
  "C01":"check under construction in this session (wire tap + emission routes)",
 
-"C09":"check under construction",
- "C10":"check under construction","C14":"check under construction","C15":"check under construction",
+
+"C14":"check under construction","C15":"check under construction",
  "C16":"check under construction","C17":"check under construction","C18":"check under construction",
 
 }
